@@ -169,7 +169,21 @@ static inline void mtGenerate(Rng &r, Plan &p, bool thorough, bool racePhase)
     if(r.chance(0.15))
     {
         static const int fastCores[6] = { 0, 2, 3, 4, 5, 6 };
-        int core = fastCores[r.below(6)]; p.cfg["emu0"] = core; p.cfg["emu1"] = core; p.cfg["scenario"] = 1;
+        int core = fastCores[r.below(6)]; p.cfg["emu0"] = core; p.cfg["emu1"] = core;
+        const bool arpFlavour = r.chance(0.35);   // every task arpeggiates: more notes of one instrument than chip channels, time advancing in all tasks
+        p.cfg["scenario"] = arpFlavour ? 2 : 1;
+        if(arpFlavour)
+        {
+            for(int t = 0; t < nTasks; ++t)
+            {
+                std::vector<Op> &h = hist[(size_t)t];
+                h.push_back(Op(A_INIT, (long)r.pick<int>({ 22050, 44100 }))); h.push_back(Op(A_OPEN_BANK_DATA, 1)); h.push_back(Op(A_SWITCH_EMULATOR, core)); h.push_back(Op(A_SET_NUM_CHIPS, 1)); h.push_back(Op(A_SET_AUTO_ARP, 1));
+                int notes = (int)r.range(7, 11); for(int q = 0; q < notes; ++q) { Op n(A_NOTE_ON, 0, 40 + q * 2 + (int64_t)t, 110); n.inst = 0; h.push_back(n); }
+                int len = (int)r.range(6, 14);
+                for(int i = 0; i < len; ++i) { Op o; o.inst = 0; o.kind = (int)r.pick<int>({ A_GENERATE, A_GENERATE, A_GENERATE, A_TICK_EVENTS, A_NOTE_ON, A_NOTE_OFF }); if(o.kind == A_GENERATE) o.a[0] = racePhase ? 64 : (int64_t)r.pick<int>({ 256, 1024, 2048, 4096 }); else if(o.kind == A_TICK_EVENTS) o.d = r.pick<double>({ 0.01, 0.05 }); else { o.a[0] = 0; o.a[1] = (int64_t)r.range(40, 64); o.a[2] = 100; } h.push_back(o); }
+            }
+        }
+        else
         for(int t = 0; t < nTasks; ++t)
         {
             std::vector<Op> &h = hist[(size_t)t];
